@@ -170,8 +170,10 @@ func (mdb *MassDBV1) Delete() chan error {
 
 	go func() {
 		var errA, errB error
-		if mdb.HashMapA != nil {
-			errA = os.Remove(mdb.filePathA)
+		// table A may still be on disk although it is not loaded (a plotted table B
+		// whose companion was not unlinked, e.g. after a crash right before that step)
+		if errA = os.Remove(mdb.filePathA); mdb.HashMapA == nil && os.IsNotExist(errA) {
+			errA = nil
 		}
 		errB = os.Remove(mdb.filePathB)
 
